@@ -10,7 +10,7 @@ RELUTIL = {"pkg": "./pkg/release/util", "files": ["pkg/release/util/h_c08_part.g
 
 REPOPKG = {"pkg": "./pkg/repo", "files": ["pkg/repo/h_c18_index.go"]}
 
-ACTION = {"pkg": "./pkg/action", "files": ["pkg/action/h_common.go", "pkg/action/h_smoke.go", "pkg/action/h_c01_hist.go", "pkg/action/h_c06_dryrun.go", "pkg/action/h_c12_hooks.go", "pkg/action/h_c07_own.go", "pkg/action/h_c14_schema.go"]}
+ACTION = {"pkg": "./pkg/action", "files": ["pkg/action/h_common.go", "pkg/action/h_smoke.go", "pkg/action/h_c01_hist.go", "pkg/action/h_c06_dryrun.go", "pkg/action/h_c12_hooks.go", "pkg/action/h_c07_own.go", "pkg/action/h_c14_schema.go", "pkg/action/h_tree.go", "pkg/action/h_c13_reuse.go"]}
 
 CHARTUTIL = {"pkg": "./pkg/chart/v2/util", "files": ["pkg/chart/v2/util/h_values.go"]}
 
@@ -21,7 +21,7 @@ CHECKS = {
     },
     "ACTIONSMOKE": {"runs": [dict(ACTION, entries=["HSmoke"])], "bounds": {}, "assumptions": []},
     "C18": {
-        "runs": [dict(REPOPKG, entries=["H18Index"], bounds_quick={"entries": 2, "shapes": 5, "maxdigit": 3}, bounds_thorough={"entries": 3, "shapes": 5, "maxdigit": 9})],
+        "runs": [dict(REPOPKG, entries=["H18Index"], bounds_quick={"entries": 2, "shapes": 6, "maxdigit": 3}, bounds_thorough={"entries": 3, "shapes": 6, "maxdigit": 9})],
         "bounds": {}, "assumptions": [],
     },
     "C08": {
@@ -44,12 +44,12 @@ CHECKS = {
     },
     "C01": {
         "runs": [dict(STORAGE, entries=["H01Prune"], bounds_quick={"recs": 3, "maxver": 97, "maxhist": 4, "nstatus": 4}, bounds_thorough={"recs": 5, "maxver": 97, "maxhist": 6}),
-                 dict(ACTION, entries=["H01Hist"], bounds_quick={"depth": 2, "faults": 1, "crashes": 0, "maxhist": 2}, bounds_thorough={"depth": 3, "faults": 1, "crashes": 1, "maxhist": 2},
+                 dict(ACTION, entries=["H01Hist", "H01Crash"], bounds_quick={"depth": 2, "faults": 1, "crashes": 0, "maxhist": 2}, bounds_thorough={"depth": 3, "faults": 1, "crashes": 1, "maxhist": 2},
                       limits={"max_instrs": 20000000, "max_decisions": 2000})],
         "bounds": {}, "assumptions": [],
     },
     "C03": {
-        "runs": [dict(ACTION, entries=["H03Hist"], bounds_quick={"depth": 2, "faults": 1, "crashes": 0, "maxhist": 1}, bounds_thorough={"depth": 3, "faults": 1, "crashes": 0, "maxhist": 2},
+        "runs": [dict(ACTION, entries=["H03Hist", "H03AtomicAfterFailed"], bounds_quick={"depth": 2, "faults": 1, "crashes": 0, "maxhist": 1}, bounds_thorough={"depth": 3, "faults": 1, "crashes": 0, "maxhist": 2},
                       limits={"max_instrs": 20000000, "max_decisions": 2000})],
         "bounds": {}, "assumptions": [],
     },
@@ -62,11 +62,15 @@ CHECKS = {
         "bounds": {}, "assumptions": [],
     },
     "C07": {
-        "runs": [dict(ACTION, entries=["H07Own", "H07Gate"], limits={"max_instrs": 20000000, "max_decisions": 2000})],
+        "runs": [dict(ACTION, entries=["H07Own", "H07Gate", "H07GateNamespace"], limits={"max_instrs": 20000000, "max_decisions": 2000})],
+        "bounds": {}, "assumptions": [],
+    },
+    "C13": {
+        "runs": [dict(ACTION, entries=["H13Reuse", "H13Rollback"], bounds_quick={"depth": 1, "slim": 1, "defdepth": 0}, bounds_thorough={"depth": 2, "slim": 1, "defdepth": 1}, limits={"max_instrs": 20000000, "max_decisions": 2000})],
         "bounds": {}, "assumptions": [],
     },
     "C14": {
-        "runs": [dict(ACTION, entries=["H14Gate"], limits={"max_instrs": 20000000, "max_decisions": 2000})],
+        "runs": [dict(ACTION, entries=["H14Gate", "H14Deep", "H14Alias"], limits={"max_instrs": 20000000, "max_decisions": 2000})],
         "bounds": {}, "assumptions": [],
     },
     "C10": {
@@ -75,8 +79,9 @@ CHECKS = {
     },
     "C04": {
         "runs": [
-            dict(STRVALS, entries=["H04SetScalar", "H04SetTyped", "H04SetList", "H04SetLiteral", "H04SetFrame"],
-                 bounds_quick={"maxlen": 5}, bounds_thorough={"maxlen": 7}),
+            dict(STRVALS, entries=["H04SetScalar", "H04SetTyped", "H04SetNumeric", "H04SetEscapes", "H04SetList", "H04SetLiteral", "H04SetFrame"],
+                 bounds_quick={"maxlen": 5, "numlen": 4}, bounds_thorough={"maxlen": 7, "numlen": 5}),
+            dict(pkg="./pkg/cli/values", files=["pkg/cli/values/h_c04_flags.go"], entries=["H04Flags"], bounds_quick={"sources": 8, "modes": 3}, bounds_thorough={"sources": 8, "modes": 4}, optional_sites=["flags/m.b/highest-precedence-source"]),
             dict(CHARTUTIL, entries=["H04Coalesce"], bounds_quick={"depth": 2, "slim": 1}, bounds_thorough={"depth": 2, "slim": 0}),
         ],
         "bounds": {"quick": "atoms 1-4 symbolic bytes a-z; list index 0-3; arbitrary-input frame harness: 0-5 symbolic bytes over the 15-symbol alphabet -ay01=,.[]{}\\ and space",
@@ -85,7 +90,8 @@ CHECKS = {
     },
     "C20": {
         "runs": [
-            dict(STRVALS, entries=["H04SetFrame", "H20SetTypeConfusion"], bounds_quick={"maxlen": 5}, bounds_thorough={"maxlen": 6}),
+            dict(STRVALS, entries=["H04SetFrame", "H20SetTypeConfusion", "H20SetDeep"], bounds_quick={"maxlen": 5, "deeplen": 3}, bounds_thorough={"maxlen": 6, "deeplen": 5}),
+            dict(REPOPKG, entries=["H18Index"], bounds_quick={"entries": 2, "shapes": 6, "maxdigit": 3}, bounds_thorough={"entries": 3, "shapes": 6, "maxdigit": 9}),
         ],
         "bounds": {},
         "assumptions": [],
